@@ -62,7 +62,11 @@ class Ed25519Key(PKey):
             pkformat, data = self._read_private_key("OPENSSH", file_obj)
 
         if filename or file_obj:
-            signing_key = self._parse_signing_key_data(data, password)
+            try:
+                signing_key = self._parse_signing_key_data(data, password)
+            except UnicodeDecodeError:
+                # a cipher/kdf/key type name which is not even text
+                raise SSHException("Invalid key")
             # Private keys can verify too: keep the public half around.
             verifying_key = signing_key.verify_key
 
